@@ -13,6 +13,7 @@
 #include <signal.h>
 #include <fcntl.h>
 #include <time.h>
+#include <sys/prctl.h>
 
 struct ForkResult { std::vector<std::string> text; std::vector<int> status; bool timed_out = false; double wall = 0; std::string errlog;
 	// the library reports every expired time-out on stderr; a run with such a report is outside the synchrony assumption
@@ -40,6 +41,7 @@ inline ForkResult fork_parties(size_t n, size_t t, uint64_t seed, time_t aio_tim
 		if (pid[w] < 0) { perror("fork"); exit(2); }
 		if (pid[w] == 0) {
 			int rc = 0;
+			prctl(PR_SET_PDEATHSIG, SIGKILL);     // never outlive the harness process
 			if (efd >= 0) { fcntl(efd, F_SETFL, O_APPEND); dup2(efd, 2); }
 			try {
 				std::vector<int> uin, uout, bin, bout; std::vector<std::string> ukey, bkey;
